@@ -1808,9 +1808,21 @@ func (c *FCtx) mergeStates(sts []*State) *State {
 	for _, s := range sts[1:] {
 		anc = commonAncestor(anc, s.pc)
 	}
+	// the branch condition proper is the quantifier-free part of what was assumed since the fork; quantified facts
+	// assumed on a branch (callee postconditions, invariants) are kept as separate hypotheses "branch => fact" so
+	// that they stay visible to instantiation (path conditions of one fork are mutually exclusive)
 	conds := make([]*Term, len(sts))
+	quant := make([][]*Term, len(sts))
 	for i, s := range sts {
-		conds[i] = And(s.pc.since(anc)...)
+		var ground []*Term
+		for _, t := range s.pc.since(anc) {
+			if hasQuantifier(t) {
+				quant[i] = append(quant[i], t)
+			} else {
+				ground = append(ground, t)
+			}
+		}
+		conds[i] = And(ground...)
 	}
 	// defers must agree
 	for _, s := range sts[1:] {
@@ -1855,6 +1867,11 @@ func (c *FCtx) mergeStates(sts []*State) *State {
 		named[i] = c.define("br", cd)
 	}
 	m.pc = m.pc.push(Or(named...))
+	for i, qs := range quant {
+		for _, q := range qs {
+			m.pc = m.pc.push(Implies(named[i], q))
+		}
+	}
 	// heap
 	keys := map[string]bool{}
 	for _, s := range sts {
@@ -2122,4 +2139,16 @@ func (c *FCtx) havocKeys(st *State, keys []string) {
 		}
 		st.heap[k] = c.freshVar(k, srt)
 	}
+}
+
+func hasQuantifier(t *Term) bool {
+	if t.Op == "forall" || t.Op == "exists" {
+		return true
+	}
+	for _, a := range t.Args {
+		if hasQuantifier(a) {
+			return true
+		}
+	}
+	return false
 }
